@@ -2,8 +2,9 @@ package main
 
 import (
 	"fmt"
-	"os"
+	"go/token"
 	"go/types"
+	"os"
 	"strings"
 
 	"golang.org/x/tools/go/ssa"
@@ -467,6 +468,66 @@ func c17Close(a *An, kf *kqFacts) {
 		}
 	}
 	a.R.ob("C17.3", "close:every-listed-path", "Close calls the internal removal for every listed path, unconditionally", a.P.pos(cl.Pos()), loopCall, strings.Join(uniq(conds), " | "))
+	// the listing Close walks is the table of ALL watched paths (the one that leads to the descriptors), not only the
+	// paths the user added: per-entry watches have descriptors too
+	for _, v := range w.Visits {
+		call, ok := v.Instr.(*ssa.Call)
+		if !ok || kf.inRemoval(v.Ctx) {
+			continue
+		}
+		cal := v.Ctx.calleeOf(&call.Call)
+		if !kf.removal[cal] {
+			continue
+		}
+		var nameArg ssa.Value
+		for _, arg := range call.Call.Args {
+			if isString(arg.Type()) {
+				nameArg = arg
+				break
+			}
+		}
+		if nameArg == nil {
+			continue
+		}
+		// the name is an element of a slice: find what was put into that slice
+		nv, nc := v.Ctx.resolve(stripConv(nameArg))
+		var sl ssa.Value
+		if ld, ok := nv.(*ssa.UnOp); ok && ld.Op == token.MUL {
+			if ia, ok := ld.X.(*ssa.IndexAddr); ok {
+				sl = ia.X
+			}
+		}
+		if sl == nil {
+			a.R.ob("C17.3", "close:lists-all-paths", "the names Close removes are the keys of the table of all watched paths", a.P.instrPos(call), false, "the name is not an element of a listing: "+stripIDs(nc.path(nv)))
+			continue
+		}
+		ins, complete := sliceInserted(nc, sl)
+		var srcs []string
+		okAll := complete && len(ins) > 0
+		for _, e := range ins {
+			ev, ec := e.c.resolve(stripConv(e.v))
+			src := "?"
+			if ex, ok := ev.(*ssa.Extract); ok {
+				if nx, ok := ex.Tuple.(*ssa.Next); ok && ex.Index == 1 {
+					if rg, ok := nx.Iter.(*ssa.Range); ok {
+						if f := ec.fieldOfValue(rg.X); f != nil {
+							src = "keys of " + fieldStr(ro, f)
+							if f != kf.pathTable {
+								okAll = false
+							}
+						}
+					}
+				}
+			}
+			if src == "?" {
+				okAll = false
+				src = stripIDs(ec.path(ev))
+			}
+			srcs = append(srcs, src)
+		}
+		a.R.ob("C17.3", "close:lists-all-paths", "the names Close removes are the keys of the table of all watched paths (per-entry watches own descriptors too), not just the user's", a.P.instrPos(call), okAll,
+			sprintf("listing elements: %s (complete=%v)", fmtList(uniq(srcs)), complete))
+	}
 	// wake-up and reader-side releases
 	wake := false
 	for _, c := range unixCloseVisits(w) {
